@@ -15,7 +15,7 @@ func init() {
 	runner.Register(&runner.Check{
 		ID:    "C08",
 		Level: "exploration",
-		Rule: "program = 3 (quick) / 4 (thorough) rule slots, each (phase in {1,2,3,5}) x (action in {pass, skip:1, skip:2, skipAfter:M1, skipAfter:ABSENT, allow, allow:request, allow:phase, deny, deny+skip:1, deny+skipAfter:ABSENT}) x (chain of 1 or 2 links), " +
+		Rule: "program = 3 rule slots over phases {1,2,5} (quick); thorough: 3 slots over {1,2,5} with every marker/engine combination, 3 slots over all five phases, 4 slots over a reduced action menu; each slot = (phase) x (action in {pass, skip:1, skip:2, skipAfter:M1, skipAfter:ABSENT, allow, allow:request, allow:phase, deny, deny+skip:1, deny+skipAfter:ABSENT}) x (chain of 1 or 2 links), " +
 			"plus marker M1 at every position or absent, engine On / DetectionOnly; slot i (and each chain link) matches iff its own request bit is set; requests = all bit vectors; " +
 			"every (program, request) is driven through all five phases on the real engine and compared with a flow interpreter restating the property: exact list of fired rules and the interruption; " +
 			"distinct_nontrivial = distinct (program, request) in which at least one flow action (skip/skipAfter/allow/deny) was executed by the model",
@@ -209,46 +209,60 @@ func model(p program, bits []bool) (fired []int, itr int, specified bool, flow b
 
 var actionsQuick = []string{"pass", "skip:1", "skip:2", "skipAfter:M1", "skipAfter:ABSENT", "allow", "allow:request", "allow:phase", "deny", "deny,skip:1", "deny,skipAfter:ABSENT"}
 
+// family is one sub-space of programs.
+type family struct {
+	n        int
+	phases   []int
+	actions  []string
+	combined string // where combined disruptive+flow actions may stand: "first" | "any"
+	markers  []int
+	detOnly  []int // marker positions also generated under DetectionOnly
+}
+
+var actionsReduced = []string{"pass", "skip:1", "skipAfter:M1", "skipAfter:ABSENT", "allow", "allow:phase", "deny"}
+
 func programs(thorough bool, emit func(p program)) {
-	n := 3
-	phases := []int{1, 2, 5}
-	actions := actionsQuick
-	if thorough {
-		n = 4
-		phases = []int{1, 2, 3, 5}
+	fams := []family{
+		// quick: 3 slots over phases 1, 2 and logging
+		{n: 3, phases: []int{1, 2, 5}, actions: actionsQuick, combined: "first", markers: []int{-1, 0, 1, 3}, detOnly: []int{-1}},
 	}
-	var rec func(cur []slot, chained bool)
-	rec = func(cur []slot, chained bool) {
-		if len(cur) == n {
-			for m := -1; m <= n; m++ {
-				if !thorough && m == 2 {
-					continue
+	if thorough {
+		fams = []family{
+			{n: 3, phases: []int{1, 2, 5}, actions: actionsQuick, combined: "any", markers: []int{-1, 0, 1, 2, 3}, detOnly: []int{-1, 0, 1, 2, 3}},
+			// all five phases with three slots
+			{n: 3, phases: []int{1, 2, 3, 4, 5}, actions: actionsQuick, combined: "first", markers: []int{-1, 0, 2}, detOnly: []int{-1}},
+			// four slots over a reduced action menu
+			{n: 4, phases: []int{1, 2, 5}, actions: actionsReduced, combined: "first", markers: []int{-1, 0, 2, 4}, detOnly: []int{-1}},
+		}
+	}
+	for _, f := range fams {
+		f := f
+		var rec func(cur []slot, chained bool)
+		rec = func(cur []slot, chained bool) {
+			if len(cur) == f.n {
+				for _, m := range f.markers {
+					emit(program{Slots: append([]slot{}, cur...), Marker: m, Engine: "On"})
 				}
-				for _, e := range []string{"On", "DetectionOnly"} {
-					if e == "DetectionOnly" && m >= 0 && !thorough {
+				for _, m := range f.detOnly {
+					emit(program{Slots: append([]slot{}, cur...), Marker: m, Engine: "DetectionOnly"})
+				}
+				return
+			}
+			for _, ph := range f.phases {
+				// rules of different phases are generated in every order: skip's "same phase only" clause
+				for _, a := range f.actions {
+					if strings.Contains(a, ",") && f.combined == "first" && len(cur) > 0 {
 						continue
 					}
-					emit(program{Slots: append([]slot{}, cur...), Marker: m, Engine: e})
-				}
-			}
-			return
-		}
-		for _, ph := range phases {
-			// rules are generated in non-decreasing phase order except for one
-			// inversion (a later-phase rule placed first), which is what skip's
-			// "same phase only" clause is about
-			for _, a := range actions {
-				if !thorough && strings.Contains(a, ",") && len(cur) > 0 {
-					continue // quick: a combined disruptive+flow action only on the first rule
-				}
-				rec(append(cur, slot{Phase: ph, Action: a, Chain: 1}), chained)
-				if !chained && (a == "deny" || a == "skip:1" || a == "allow" || a == "skipAfter:M1") {
-					rec(append(cur, slot{Phase: ph, Action: a, Chain: 2}), true)
+					rec(append(cur, slot{Phase: ph, Action: a, Chain: 1}), chained)
+					if !chained && (a == "deny" || a == "skip:1" || a == "allow" || a == "skipAfter:M1") {
+						rec(append(cur, slot{Phase: ph, Action: a, Chain: 2}), true)
+					}
 				}
 			}
 		}
+		rec(nil, false)
 	}
-	rec(nil, false)
 }
 
 func run(c *runner.Ctx) {
